@@ -997,7 +997,6 @@ pub(crate) async fn prepare_request(
         query_data,
         http_headers: Default::default(),
         introspection_mode: request.introspection_mode,
-        errors: Default::default(),
     };
     Ok((QueryEnv::new(env), validation_result.cache_control))
 }
